@@ -2,6 +2,7 @@ package main
 
 import (
 	"fmt"
+	"go/token"
 	"go/types"
 	"strings"
 
@@ -204,4 +205,248 @@ func ruleC14CopyInsideLock(r *Run, p *Program, rule string) {
 		}
 	}
 	r.universe(rule, n, 6)
+}
+
+// ruleC14Fresh: every byte slice handed to the caller is a buffer allocated for that result (cloneBytes / make), or the
+// caller's own buffer extended by append - never a view of a buffer the database keeps and reuses.
+func ruleC14Fresh(r *Run, p *Program, rule string) {
+	api := exportedAPIFuncs(p)
+	// stores into []byte fields, by qualified field name
+	fieldStores := map[string][]*ssa.Store{}
+	for _, f := range p.ModuleFuncs("") {
+		if f.Pkg != p.MainS {
+			continue
+		}
+		instrsOf(f, func(in ssa.Instruction) {
+			if st, ok := in.(*ssa.Store); ok {
+				if fn := fieldName(st.Addr); fn != "" {
+					if _, isSl := st.Val.Type().Underlying().(*types.Slice); isSl {
+						fieldStores[fn] = append(fieldStores[fn], st)
+					}
+				}
+			}
+		})
+	}
+	var fresh func(v ssa.Value, apiFn *ssa.Function, seen map[ssa.Value]bool, d int) (bool, string)
+	fresh = func(v ssa.Value, apiFn *ssa.Function, seen map[ssa.Value]bool, d int) (bool, string) {
+		v = strip(v)
+		if v == nil || d > 25 {
+			return false, "too deep"
+		}
+		if seen[v] {
+			return true, ""
+		}
+		seen[v] = true
+		switch x := v.(type) {
+		case *ssa.Const:
+			return true, ""
+		case *ssa.MakeSlice:
+			return true, ""
+		case *ssa.Call:
+			if calleeKey(&x.Call) == "pogreb.cloneBytes" {
+				return true, ""
+			}
+			if b, ok := x.Call.Value.(*ssa.Builtin); ok && b.Name() == "append" {
+				// the caller's buffer extended: first argument must derive from a []byte parameter of the API function
+				for _, s := range sources(x.Call.Args[0]) {
+					if callerBuffer(s, apiFn) {
+						return true, ""
+					}
+				}
+				return fresh(x.Call.Args[0], apiFn, seen, d+1)
+			}
+			if f := x.Call.StaticCallee(); f != nil && inModule(f) {
+				for _, ret := range returnsOf(f) {
+					for i := range ret.Results {
+						if _, isSl := ret.Results[i].Type().Underlying().(*types.Slice); isSl {
+							if ok, why := fresh(retOperand(ret, i), apiFn, seen, d+1); !ok {
+								return false, why
+							}
+						}
+					}
+				}
+				return true, ""
+			}
+			return false, "result of " + callString(&x.Call)
+		case *ssa.Extract:
+			if c, ok := x.Tuple.(*ssa.Call); ok {
+				if f := c.Call.StaticCallee(); f != nil && inModule(f) {
+					for _, ret := range returnsOf(f) {
+						if x.Index < len(ret.Results) {
+							if ok, why := fresh(retOperand(ret, x.Index), apiFn, seen, d+1); !ok {
+								return false, why
+							}
+						}
+					}
+					return true, ""
+				}
+			}
+			return false, "result of a call outside the module"
+		case *ssa.Phi:
+			for _, e := range x.Edges {
+				if ok, why := fresh(e, apiFn, seen, d+1); !ok {
+					return false, why
+				}
+			}
+			return true, ""
+		case *ssa.Slice:
+			return false, "a sub-slice of " + valString(x.X)
+		case *ssa.Field:
+			return freshField(fieldName(x), apiFn, seen, d, fieldStores, fresh)
+		case *ssa.UnOp:
+			if x.Op != token.MUL {
+				return false, "?"
+			}
+			switch a := x.X.(type) {
+			case *ssa.FieldAddr:
+				return freshField(fieldName(a), apiFn, seen, d, fieldStores, fresh)
+			case *ssa.Alloc:
+				// a local cell, possibly assigned inside closures that captured it
+				okAll := true
+				why := ""
+				for _, sv := range cellStores(a) {
+					if ok, w := fresh(sv, apiFn, seen, d+1); !ok {
+						okAll, why = false, w
+					}
+				}
+				return okAll, why
+			case *ssa.IndexAddr:
+				return fresh(a.X, apiFn, seen, d+1)
+			}
+			return false, "load of " + valString(x.X)
+		case *ssa.Parameter:
+			if callerBuffer(x, apiFn) {
+				return true, ""
+			}
+			return false, "parameter " + x.Name()
+		}
+		return false, valString(v)
+	}
+	n := 0
+	for _, f := range api {
+		for _, ret := range returnsOf(f) {
+			for i := range ret.Results {
+				v := retOperand(ret, i)
+				sl, ok := v.Type().Underlying().(*types.Slice)
+				if !ok {
+					continue
+				}
+				if b, ok := sl.Elem().Underlying().(*types.Basic); !ok || (b.Kind() != types.Byte && b.Kind() != types.Uint8) {
+					continue
+				}
+				n++
+				r.fn(funcKey(f))
+				okv, why := fresh(v, f, map[ssa.Value]bool{}, 0)
+				r.check(okv, rule, funcKey(f)+":result", p.Pos(instrPos(ret)), "the returned byte slice is a buffer allocated for this result (or the caller's buffer extended)",
+					funcKey(f)+" can return a byte slice that is not a buffer allocated for this result ("+why+"): it is a view of memory the database keeps and reuses, so its contents change under the caller at a later call")
+			}
+		}
+	}
+	r.universe(rule, n, 3)
+}
+
+func freshField(fn string, apiFn *ssa.Function, seen map[ssa.Value]bool, d int, stores map[string][]*ssa.Store, fresh func(ssa.Value, *ssa.Function, map[ssa.Value]bool, int) (bool, string)) (bool, string) {
+	sts := stores[fn]
+	if len(sts) == 0 {
+		return false, "field " + fn + " (never assigned)"
+	}
+	for _, st := range sts {
+		if ok, why := fresh(st.Val, st.Parent(), seen, d+1); !ok {
+			return false, "field " + fn + " is assigned " + why
+		}
+	}
+	return true, ""
+}
+
+// callerBuffer: v is (derived by capture from) a []byte parameter of an exported function.
+func callerBuffer(v ssa.Value, apiFn *ssa.Function) bool {
+	switch x := v.(type) {
+	case *ssa.Parameter:
+		_, ok := x.Type().Underlying().(*types.Slice)
+		return ok && x.Parent().Object() != nil && x.Parent().Object().Exported()
+	case *ssa.UnOp:
+		if x.Op == token.MUL {
+			if fv, ok := x.X.(*ssa.FreeVar); ok {
+				return callerBuffer(fv, apiFn)
+			}
+			if a, ok := x.X.(*ssa.Alloc); ok {
+				for _, s := range allocStores(a) {
+					if callerBuffer(s, apiFn) {
+						return true
+					}
+				}
+			}
+		}
+	case *ssa.Alloc:
+		for _, s := range allocStores(x) {
+			if callerBuffer(s, apiFn) {
+				return true
+			}
+		}
+	case *ssa.FreeVar:
+		// captured from the enclosing exported function
+		par := x.Parent().Parent()
+		if par == nil {
+			return false
+		}
+		for _, in := range collectMakeClosures(par) {
+			fn, ok := in.Fn.(*ssa.Function)
+			if !ok || fn != x.Parent() {
+				continue
+			}
+			for i, fv := range fn.FreeVars {
+				if fv == x && i < len(in.Bindings) {
+					if callerBuffer(in.Bindings[i], apiFn) {
+						return true
+					}
+					for _, s := range sources(in.Bindings[i]) {
+						if callerBuffer(s, apiFn) {
+							return true
+						}
+					}
+				}
+			}
+		}
+	}
+	return false
+}
+
+func collectMakeClosures(f *ssa.Function) []*ssa.MakeClosure {
+	var out []*ssa.MakeClosure
+	instrsOf(f, func(in ssa.Instruction) {
+		if mc, ok := in.(*ssa.MakeClosure); ok {
+			out = append(out, mc)
+		}
+	})
+	return out
+}
+
+// cellStores returns the values stored into a local cell, including stores made by closures that captured it.
+func cellStores(a *ssa.Alloc) []ssa.Value {
+	out := allocStores(a)
+	if refs := a.Referrers(); refs != nil {
+		for _, rf := range *refs {
+			mc, ok := rf.(*ssa.MakeClosure)
+			if !ok {
+				continue
+			}
+			fn, ok := mc.Fn.(*ssa.Function)
+			if !ok {
+				continue
+			}
+			for i, b := range mc.Bindings {
+				if b == ssa.Value(a) && i < len(fn.FreeVars) {
+					fv := fn.FreeVars[i]
+					if fr := fv.Referrers(); fr != nil {
+						for _, x := range *fr {
+							if st, ok := x.(*ssa.Store); ok && st.Addr == ssa.Value(fv) {
+								out = append(out, st.Val)
+							}
+						}
+					}
+				}
+			}
+		}
+	}
+	return out
 }
